@@ -713,8 +713,10 @@ def verify_directory_hash_subcommand(
         for hash_list in existing_history.hash_lists:
             if hash_list.generation_number > generation:
                 # add each hash entry's format to the list of formats
-                if len(hash_list.process_info.root_media_hash.hash_entries) > 0:
-                    for entry in hash_list.process_info.root_media_hash.hash_entries:
+                # (generations created without directory hashes have no root hash)
+                root_media_hash = hash_list.process_info.root_media_hash
+                if root_media_hash is not None and len(root_media_hash.hash_entries) > 0:
+                    for entry in root_media_hash.hash_entries:
                         entry_hash_format = entry.hash_format
                         # do not permit duplicate entries in the list
                         if entry_hash_format not in hash_formats:
@@ -855,6 +857,9 @@ def verify_directory_hash_subcommand(
         # compare root hashes, works differently
         if folder_path == root_path:
             for hash_list in existing_history.hash_lists:
+                # generations created without directory hashes have no root hash
+                if hash_list.process_info.root_media_hash is None:
+                    continue
                 root_hash_entries = hash_list.process_info.root_media_hash.hash_entries
                 if len(root_hash_entries) > 0:
                     for root_hash_entry in root_hash_entries:
